@@ -53,7 +53,7 @@ ENV0 = {"SEED": "0", "SMALLN": "3", "STRATUM": "none", "FROM": "0", "TO": "0", "
 
 
 def tlc_step(step, env, timeout, xmx="8g", must_pass=True):
-    e = dict(ENV0, STEP=step)
+    e = dict(ENV0, STEP=step, JAVA_TOOL_OPTIONS="-Xss32m")
     e.update({k: str(v) for k, v in env.items()})
     r = vlib.tlc("Cpp", "Cpp.cfg", env=e, workers=1, timeout=timeout, xmx=xmx)
     if r.error or (must_pass and not r.ok):
